@@ -95,10 +95,17 @@ def _transform_mp_worker(queue, done_event, pio_in, pio_out, make_buf, do_one):
     buf = make_buf()
 
     while True:
+        # Sample the shutdown flag *before* waiting for an item. The producer
+        # only sets it after everything has been flushed into the queue, so if
+        # it was already set when we started waiting, a timeout really means
+        # that there is no work left. Checking it only after the timeout is
+        # racy: the last items may be flushed, and the flag set, in between.
+        finishing = done_event.is_set()
+
         try:
             pos = queue.get(True, timeout=1)
         except Empty:
-            if done_event.is_set():
+            if finishing:
                 break
             continue
 
